@@ -37,6 +37,10 @@ checks["C12"]=dict(level="fault_enumeration",engine="seqx",design="4/C12",note=S
 checks["C16"]=dict(level="fault_enumeration",engine="seqx",design="4/C16",note=SEQX_NOTE,
   technique="bounded-exhaustive enumeration of envelope sizes x stream positions x delivery plans over a passive scripted connection driving the real transport; byte-budget oracle",
   text="Streams of 1-4 exactly sized envelopes (sizes around L, 2L and far above, limits 64/256/1024 and the default) under every delivery plan (per envelope, coalesced, every split into up to 3 reads, byte by byte) through the real tcpTransport: no Receive consumes more than the limit, nothing above twice the limit is returned, everything within the limit is accepted wherever it stands in the stream; plus limit propagation through the real listener/dialer on loopback.")
+checks["C18"]=dict(level="model_checking",engine="gosim",design="4/C18",technique=SCHED_TECH,
+  text="A real Server with 1-2 real clients (TCP transport over virtual pipes, optionally an in-process listener) is closed at a stage chosen as data (start-up, dialled, established, traffic handled) and at every position the bounded scheduler can reach around it; ListenAndServe must return ErrServerClosed, nothing may panic or be left behind, established clients must observe finished, and the Established/Finished callbacks must pair up exactly once per established session, around its handlers.")
+checks["C19"]=dict(level="model_checking",engine="gosim",design="4/C19",technique=SCHED_TECH,
+  text="A real Client against a real Server over per-dial virtual TCP connections suffers each fault kind (server finish/fail, abrupt close, half-close, undecodable bytes, non-envelope JSON, oversized envelope) idle or concurrently with a send, at every position within the deviation bound; afterwards a fresh session must exist, a server message must reach the handler, no goroutine may spin, successful sends must have hit the wire of a live session, and Close must leave nothing behind.")
 na_reason={}
 m={"version":1,
  "setup_cmd":"./setup.sh",
